@@ -66,12 +66,15 @@ func Alphabet(n int, withConsume bool) []Op {
 }
 
 // Tag names a response frame: (serial of the request it answers, page number).
+// Ver is the protocol version of the frames used by the current run (continuous paging exists in DSE v1 and v2).
+var Ver = primitive.ProtocolVersionDse2
+
 func respFrame(id int16, final bool, serial, page int) *frame.Frame {
 	tag := fmt.Sprintf("s%d.p%d", serial, page)
 	if final && page == 1 {
-		return frame.NewFrame(primitive.ProtocolVersionDse2, id, &message.SetKeyspaceResult{Keyspace: tag})
+		return frame.NewFrame(Ver, id, &message.SetKeyspaceResult{Keyspace: tag})
 	}
-	return frame.NewFrame(primitive.ProtocolVersionDse2, id, &message.RowsResult{
+	return frame.NewFrame(Ver, id, &message.RowsResult{
 		Metadata: &message.RowsMetadata{ColumnCount: 1, ContinuousPageNumber: int32(page), LastContinuousPage: final, PagingState: []byte(tag)},
 		Data:     message.RowSet{},
 	})
@@ -99,7 +102,8 @@ type rreq struct {
 
 // Run executes the history path over a fresh handler (limit n, maxPending mp) and checks every
 // step. It returns the canonical state of the implementation.
-func Run(n, mp int, ops []Op, path []int) (canon string, dead bool, viols []bfs.Viol) {
+func Run(n, mp int, ver primitive.ProtocolVersion, ops []Op, path []int) (canon string, dead bool, viols []bfs.Viol) {
+	Ver = ver
 	fail := func(prop, kind, site, format string, a ...interface{}) {
 		viols = append(viols, bfs.Viol{Kind: prop + ":" + kind, Site: site, Msg: fmt.Sprintf(format, a...), Path: append([]int{}, path...)})
 	}
@@ -122,20 +126,18 @@ func Run(n, mp int, ops []Op, path []int) (canon string, dead bool, viols []bfs.
 				if fmt.Sprint(got) != fmt.Sprint(want) {
 					fail("C09", "inflight-set", "inFlightRequestsHandler", "after %s: unanswered ids are %v, handler tracks %v", step, want, got)
 				}
-				for _, r := range h.Requests() {
-					m := inflight[r.Id]
-					if m == nil {
-						continue
-					}
-					if r.Queued != len(m.queue) {
-						fail("C10", "queue-length", "inFlightRequest.onFrameReceived", "after %s: request %d has %d undelivered frames, expected %d", step, r.Id, r.Queued, len(m.queue))
-					}
-					if r.Done != m.done {
-						fail("C10", "done-flag", "inFlightRequest.close", "after %s: request %d done=%v, expected %v", step, r.Id, r.Done, m.done)
-					}
+				for _, k := range want {
+				m := inflight[k]
+				// observed through the request's own public handle, not through the handler's map
+				if q := len(m.h.Incoming()); q != len(m.queue) {
+					fail("C10", "queue-length", "inFlightRequest.onFrameReceived", "after %s: request %d has %d undelivered frames, expected %d", step, k, q, len(m.queue))
+				}
+				if d := m.h.IsDone(); d != m.done {
+					fail("C10", "done-flag", "inFlightRequest.close", "after %s: request %d done=%v, expected %v", step, k, d, m.done)
 				}
 			}
-			for stepNo, oi := range path {
+		}
+		for stepNo, oi := range path {
 				op := ops[oi]
 				step := fmt.Sprintf("step %d %s", stepNo, op)
 				switch op.Kind {
